@@ -185,6 +185,26 @@ def run(chk):
             if not np.allclose(np.asarray(kz.centroids_), wantz, rtol=1e-12, atol=1e-12):
                 chk.fail("a cluster whose members sum to exactly 0 in a feature does not get the mean (0) in that coordinate: %s instead of %s" % (np.asarray(kz.centroids_).tolist(), wantz.tolist()),
                          {"X": hexlist(Xz), "init": hexlist(initz), "chunks": list(chz) if chz else None})
+    # ---- the same k-means OBJECT trained again (more iterations allowed, same explicit start): the second training is a training like any
+    #      other - nothing of the first one (its last criterion) enters the stopping rule
+    for i in range(4 if chk.tier == "quick" else 60):
+        from bob.learn.em import KMeansMachine
+        from ..impl import LogCounter
+        initr, Xr = kt.gen_clusters(r, K=r.choice([2, 3]), D=2, N=r.choice([15, 21]))
+        g = gen.nprng(r)
+        initr = Xr[g.choice(len(Xr), size=len(initr), replace=False)]          # a start that needs several iterations
+        thr_r = r.choice([1e-5, 1e-3, 0.05])
+        fresh, nfresh, _ = kt.run_kfit(initr, Xr, None, cap=50, cthr=thr_r)
+        again = KMeansMachine(n_clusters=len(initr), init_method=np.array(initr), max_iter=r.choice([1, 2]), convergence_threshold=thr_r)
+        again.fit(Xr)
+        again.set_params(max_iter=50)
+        with LogCounter("bob.learn.em.kmeans") as lc:
+            again.fit(Xr)
+        chk.count(1, key=("refit the same object", nfresh))
+        if not (lc.count == nfresh and np.allclose(np.asarray(again.centroids_), np.asarray(fresh.centroids_), rtol=1e-12, atol=1e-12)
+                and abs(float(again.average_min_distance) - float(fresh.average_min_distance)) <= 1e-12 * max(1.0, abs(float(fresh.average_min_distance)))):
+            chk.fail("a k-means object trained a second time (max_iter raised to 50, same explicit start, threshold %g) performs %d iterations and a fresh object %d; centroids / criterion differ"
+                     % (thr_r, lc.count, nfresh), {"X": hexlist(Xr), "init": hexlist(initr), "threshold": thr_r, "iterations": [lc.count, nfresh]})
     # ---- boundary cases of the stopping rule and of the criterion
     for i in range(6 if chk.tier == "quick" else 60):
         # (a) no more distinct points than clusters, every cluster non-empty: the distortion reaches exactly 0; training must still end by the cap
